@@ -393,6 +393,10 @@ def run_core(c):
         setup = {'param_update_tol': c['tol']} if c.get('tol') else {}
         if c.get('starved') is not None:
             setup['conv_approx'] = True
+        if c.get('observe'):
+            # everything that only reports switched on: energy-balance tally and all csv dumps at every plane
+            setup['calc_energy_balance'] = True
+            setup['Dump'] = {'coolant': True, 'duct': True, 'gap': True, 'average': True, 'maximum': True}
         return {'setup': setup, 'units': ({'mass_flow_rate': c['mfr']} if c.get('mfr') else None),
                 'core': {'inlet': 623.15, 'length': L, 'pitch': 0.064, 'gap_model': gm,
                                           'bypass_fraction': 0.0 if gm == 'none' else 0.05,
@@ -532,6 +536,11 @@ def cases(tier):
         for lay in (['A', 'A', 'A', 'B', 'B', 'A', 'A'], ['B', 'A', 'A', 'A', None, 'B', 'B']):
             for mfr in ('kg/min', 'lb/hr'):
                 core.append(dict(layout=lay, gap_model='flow', elements=[1, 3, 5], mfr=mfr, ranges=True))
+        # the energy-balance tally and every csv dump on (reporting only)
+        for lay in (['B', 'A', None, 'A', 'A', 'B', 'A'], ['A', 'D', 'B', None, 'A', 'A', 'B'],
+                    ['S', 'A', 'B', None, 'S', 'T', 'A']):
+            for gm in ('flow', 'no_flow'):
+                core.append(dict(layout=lay, gap_model=gm, elements=[1, 2, 4], observe=True))
         lay19 = (['A', 'B', 'A', 'A', 'B'] * 4)[:19]
         for vac, gm in ((0, 'no_flow'), (4, 'duct_average'), (11, 'flow')):
             lay = list(lay19)
@@ -568,6 +577,10 @@ def cases(tier):
                 core.append(dict(layout=['A'] * 7, gap_model=gm, elements=[1, 2, 3, 4, 5], starved=st))
                 core.append(dict(layout=['A', 'B', 'A', 'B', 'A', 'B', 'A'], gap_model=gm, elements=[1, 2, 3, 4, 5],
                                  starved=st))
+        for lay in (['B', 'A', None, 'A', 'A', 'B', 'A'], ['A', 'D', 'B', None, 'A', 'A', 'B'],
+                    ['S', 'A', 'B', None, 'S', 'T', 'A'], ['A', 'S', None, 'T', 'B', 'S', 'A']):
+            for gm in ('flow', 'no_flow', 'duct_average', 'none'):
+                core.append(dict(layout=lay, gap_model=gm, elements=[1, 2, 3, 4, 5], observe=True))
         pat = (['A', 'B', 'A', 'A', 'B'] * 4)[:19]
         core.append(dict(layout=pat, gap_model='flow', elements=[1, 2, 3, 4, 5]))
         for vac in range(19):
